@@ -2,6 +2,8 @@ package main
 
 import (
 	"fmt"
+	"go/token"
+	"go/types"
 	"sort"
 	"strings"
 
@@ -61,6 +63,8 @@ func checkC13(c *Ctx) {
 
 	// byte-level primitives the layouts above are expressed in
 	c.rule("FORMAT-primitives", "length-prefixed bytes and 32-byte hash primitives", 3)
+	c.rule("FORMAT-narrowing", "a decoded integer stored into a narrower field is accepted exactly over that field's range (the range the encoder emits)", 3)
+	checkNarrowing(c)
 	checkFormatX(c, l, "FORMAT-primitives", "encoding.EncodeBytes", l.Func("internal/encoding", "EncodeBytes"), false, true, []string{"U(len(arg1)) W(arg1)"})
 	checkFormatX(c, l, "FORMAT-primitives", "encoding.Encode32BytesHash", l.Func("internal/encoding", "Encode32BytesHash"), false, true, []string{"W(global:hashLenBz) W(arg1)"})
 	var encInit *ssa.Function
@@ -268,4 +272,163 @@ func checkTotalC13(c *Ctx) {
 	c.trust("binary.Uvarint/Varint: n <= len(buf), |n| <= 10", "binary.BigEndian.Uint64/PutUint64 need len >= 8, Uint32/PutUint32 len >= 4 (checked as obligations)",
 		"copy, append, bytes.*, sha256.*, errors.*, fmt.Errorf do not panic", "MakeNode precondition: nk is a 12-byte node key (declared; not established for hostile child keys in legacy mode)",
 		"storage backend / io.Writer / Logger calls are foreign contracts")
+}
+
+// checkNarrowing: decoders read integers as int64 varints and store them into
+// narrower fields (int8 height, uint32 nonce).  The encoder emits the whole
+// range of the field's type, so the decoder must accept exactly that range:
+// either through the round-trip test `x != int64(T(x))`, or through constant
+// bounds equal to the type's minimum / maximum.  Narrower bounds reject valid
+// stored nodes; missing or wider bounds let distinct stored values decode to
+// the same node.
+func checkNarrowing(c *Ctx) {
+	l := c.L
+	const R = "FORMAT-narrowing"
+	n := 0
+	for _, spec := range [][2]string{{"", "MakeNode"}, {"", "MakeLegacyNode"}} {
+		fn := l.Func(spec[0], spec[1])
+		if fn == nil {
+			c.anchorMissing(R, spec[1])
+			continue
+		}
+		allInstrs(fn, func(in ssa.Instruction) {
+			cv, ok := in.(*ssa.Convert)
+			if !ok {
+				return
+			}
+			from, ok1 := cv.X.Type().Underlying().(*types.Basic)
+			to, ok2 := cv.Type().Underlying().(*types.Basic)
+			if !ok1 || !ok2 || from.Kind() != types.Int64 || to.Info()&types.IsInteger == 0 {
+				return
+			}
+			var lo, hi int64
+			switch to.Kind() {
+			case types.Int8:
+				lo, hi = -128, 127
+			case types.Int16:
+				lo, hi = -32768, 32767
+			case types.Int32:
+				lo, hi = -2147483648, 2147483647
+			case types.Uint8:
+				lo, hi = 0, 255
+			case types.Uint16:
+				lo, hi = 0, 65535
+			case types.Uint32:
+				lo, hi = 0, 4294967295
+			default:
+				return
+			}
+			// only values that come out of a varint decoder
+			if !strings.Contains(roleOf(l, cv.X, "", 0), "DecodeVarint") {
+				return
+			}
+			// stored into a field?
+			field := ""
+			for _, r := range refs(cv) {
+				if st, ok := r.(*ssa.Store); ok {
+					if fa, ok := st.Addr.(*ssa.FieldAddr); ok {
+						field = fieldName(fa.X.Type(), fa.Field)
+					}
+				}
+			}
+			if field == "" {
+				return
+			}
+			n++
+			x := stripTrivial(cv.X)
+			key := fmt.Sprintf("%s: decoded varint narrowed to %s (field %s)", spec[1], to.Name(), field)
+			// (a) round trip
+			round := false
+			allInstrs(fn, func(in2 ssa.Instruction) {
+				bo, ok := in2.(*ssa.BinOp)
+				if !ok || (bo.Op != token.NEQ && bo.Op != token.EQL) {
+					return
+				}
+				back := func(a, b ssa.Value) bool {
+					if stripTrivialKeepConv(a) != x {
+						return false
+					}
+					c2, ok := b.(*ssa.Convert)
+					if !ok {
+						return false
+					}
+					// int64(T(x)) or int64(load of the field the narrowed value was stored into)
+					inner := c2.X
+					if c3, ok := inner.(*ssa.Convert); ok && stripTrivialKeepConv(c3.X) == x && types.Identical(c3.Type(), cv.Type()) {
+						return true
+					}
+					if types.Identical(inner.Type(), cv.Type()) && strings.HasSuffix(roleOf(l, inner, "", 0), "."+field) {
+						return true
+					}
+					return false
+				}
+				if back(bo.X, bo.Y) || back(bo.Y, bo.X) {
+					if len(refs(bo)) > 0 {
+						round = true
+					}
+				}
+			})
+			if round {
+				c.ok(R, key, l.ipos(cv), "round-trip test x == int64(T(x))")
+				return
+			}
+			// (b) constant bounds on x
+			var gotLo, gotHi *int64
+			allInstrs(fn, func(in2 ssa.Instruction) {
+				bo, ok := in2.(*ssa.BinOp)
+				if !ok {
+					return
+				}
+				a, b, op := bo.X, bo.Y, bo.Op
+				if _, isK := constInt(a); isK {
+					a, b = b, a
+					op = map[token.Token]token.Token{token.LSS: token.GTR, token.GTR: token.LSS, token.LEQ: token.GEQ, token.GEQ: token.LEQ}[op]
+				}
+				if stripTrivialKeepConv(a) != x {
+					return
+				}
+				k, isK := constInt(b)
+				if !isK {
+					return
+				}
+				switch op {
+				case token.LSS: // x < k rejects below k
+					v := k
+					gotLo = &v
+				case token.LEQ:
+					v := k + 1
+					gotLo = &v
+				case token.GTR: // x > k rejects above k
+					v := k
+					gotHi = &v
+				case token.GEQ:
+					v := k - 1
+					gotHi = &v
+				}
+			})
+			switch {
+			case gotLo == nil || gotHi == nil:
+				c.bad(R, key, l.ipos(cv), "no complete range test before the narrowing: distinct stored values decode to the same field value")
+			case *gotLo != lo || *gotHi != hi:
+				c.bad(R, key, l.ipos(cv), fmt.Sprintf("accepted range is [%d, %d] but the field (and the encoder) ranges over [%d, %d]: valid stored nodes are rejected or out-of-range values accepted", *gotLo, *gotHi, lo, hi))
+			default:
+				c.ok(R, key, l.ipos(cv), fmt.Sprintf("accepted range [%d, %d] = range of %s", lo, hi, to.Name()))
+			}
+		})
+	}
+	if n < 3 {
+		c.anchorMissing(R, "fewer than 3 narrowing conversions of decoded varints found")
+	}
+}
+
+// stripTrivialKeepConv strips ChangeType/MakeInterface but not Convert.
+func stripTrivialKeepConv(v ssa.Value) ssa.Value {
+	for {
+		switch x := v.(type) {
+		case *ssa.ChangeType:
+			v = x.X
+		default:
+			return v
+		}
+	}
 }
